@@ -176,6 +176,17 @@ def own_subscriptions(f: Facts):
                 st = ev
         return st
 
+    def since(p, x, opi):
+        """op index at which #p's subscription to x that is current before op `opi` began (None: not subscribed)"""
+        st, start = False, None
+        for i, ev in hist.get((p, x), []):
+            if i < opi:
+                if ev and not st:
+                    start = i
+                st = ev
+        return start if st else None
+
+    q.since = since
     return q
 
 
@@ -272,6 +283,39 @@ def oracle_c12(f: Facts) -> List[Tuple[str, str]]:
                     elif src is None:
                         sig = "C12:change-never-delivered"
                     bad.append((sig, f"at quiescence after op {i} connection #{p} (subscribed to {x} since its last change at op {j}) last learned {learned} ({src}) but the value is {cur}"))
+
+    # quiescence, second form: whatever a subscribed connection has learned about x SINCE ITS CURRENT
+    # SUBSCRIPTION BEGAN (latest event entry or own acknowledged write), if anything, is the current value
+    for i, op in enumerate(f.ops):
+        if not (op[0] == "advance" and op[1] >= WINDOW):
+            continue
+        d = f.dig[i]
+        for a_s, p in d["reg"].items():
+            a = int(a_s)
+            for x_s, subs in d["topics"].items():
+                x = int(x_s)
+                if a not in subs or x in f.nul:
+                    continue
+                start = own_sub.since(p, x, i + 1)
+                if start is None:
+                    continue
+                if any(a not in f.dig[k]["topics"].get(x_s, []) for k in range(start, i + 1)):
+                    continue
+                learned, src = learned_value(f, p, x, i, after=start)
+                cur = d["values"][x]
+                if src is None or learned == cur:
+                    continue
+                if any(s_[0].startswith("C12:originator-stale") or s_[0] == "C12:quiescent-learned-differs" for s_ in bad):
+                    continue  # already reported under the first form
+                sig = "C12:stale-value-learned-after-subscription"
+                if src[0] == "event":
+                    t_ev = next(e[0] for e in f.log[p] if e[1] == "event" and e[-1] == src[1])
+                    made = [c for c in chg if c[1] == x and c[2] == learned and c[0] <= src[1]]
+                    if made and any(c[0] < start for c in made) and not any(c[0] >= start for c in made):
+                        # the delivered value stems from a change made before the current subscription began
+                        same_window = t_ev <= change_time(f, made[-1][0]) + WINDOW
+                        sig = "C12:stale-event-after-resubscription" if same_window else "C12:stale-event-from-earlier-window"
+                bad.append((sig, f"at quiescence after op {i} connection #{p}, subscribed to {x} since op {start}, has since learned {learned} ({src}) but the value is {cur}"))
     return bad
 
 
@@ -279,13 +323,15 @@ def change_time(f: Facts, opi: int) -> int:
     return f.t_before[opi]
 
 
-def learned_value(f: Facts, p: int, x: int, upto: int):
-    """what #p last learned about x up to op `upto`: latest of event entries received and own
+def learned_value(f: Facts, p: int, x: int, upto: int, after: int = -1):
+    """what #p last learned about x in ops `after`..`upto`: latest of event entries received and own
     acknowledged writes, by position in its transport log (responses and events share the log)"""
     val, src = None, None
     for e in f.log.get(p, []):
         if e[-1] > upto:
             break
+        if e[-1] < after:
+            continue
         if e[1] == "event":
             for ex, ev in e[2]:
                 if ex == x:
